@@ -627,6 +627,15 @@ def pinpoint(chk, sources, what):
         chk.disagree(what, {"kind": "lex", "dotall": d, "source": s, "parse_template": obs, "stock": stock})
 
 
+def build_codec():
+    """Lexer/Codec.v (transport decoding / hashing of the cases) is not in the closure of Props/C09.v: build it after the proofs,
+    so that an edit of Lexer/Model.v cannot leave a stale Codec.vo behind."""
+    with C._Lock(os.path.join(C.WORK, "coq.lock")):
+        rc, out = C.sh("timeout 900 make -j%d Lexer/Codec.vo" % C.NCPU, cwd=C.COQ)
+    if rc != 0:
+        raise C.HarnessError("cannot build coq/Lexer/Codec.vo:\n" + out[-3000:])
+
+
 def run(tier, seed):
     import djsetup
     djsetup.setup()
@@ -634,6 +643,7 @@ def run(tier, seed):
     gen_constants.generate(["C09"])
     chk = C.Check("C09", tier, seed)
     chk.prove()
+    build_codec()
     thorough = tier == "thorough"
     rng = chk.rng
     set_dotall(True)
@@ -715,11 +725,14 @@ def run(tier, seed):
     ready_check(chk)
     chk.extra["feature_histogram"] = hist
     chk.assumptions = [
-        "Python re semantics of tag_re ({%.*?%}|{{.*?}}|{#.*?#}, with/without DOTALL) and of the three take-until patterns are modelled by "
-        "hand matchers anchored to the pattern strings (Gen/C09.v) and compared with re on every generated input",
+        "Python re semantics of tag_re ({%.*?%}|{{.*?}}|{#.*?#}, with/without DOTALL) and of the take-until patterns ((?:\\\\.|[^q])* per quote, [^'\"%]*) "
+        "are modelled by hand matchers anchored to the pattern strings, the take_until_any call sites and the stop-character tuples of the current "
+        "source (Gen/C09.v) and compared with re on every generated input",
         "str.strip() removes exactly the code points with str.isspace() (set regenerated from the running CPython, anchored)",
         "observables: (token_type, contents, position, lineno) of parse_template and DebugLexer; TemplateSyntaxError message; "
         "Invalid-block-tag line and template_debug line on the compile path",
+        "statement-silent corner, reported not alarmed: an unterminated quoted string / tag inside a quoted block tag raises TemplateSyntaxError "
+        "(stock Django emits tokens); the reference lexer has the same outcome (count under feature_histogram.errors)",
         "exhaustive families and structured sources are compared through a 40-bit hash of the full outcome (collision = missed difference, "
         "probability ~1e-12 per case); differing cases are re-run with full outcomes",
     ]
@@ -731,7 +744,8 @@ def run(tier, seed):
              "_detailed_tag_parser directly; compile-path error lines. Non-trivial = at least two quoted block tags or a multi-line quoted tag "
              "(detailed parser: closes after skipping a quoted %%}). Distinct = distinct (flag, source)."
              % (l1, l2, nstruct),
-        explanation="theorems of Props/C09.v re-checked by coqc; the Gallina model (django_lex, detailed, parse_template) is evaluated by vm_compute "
+        explanation="theorems of Props/C09.v re-checked by coqc (partition, contents, lineno, first unquoted close, stock equality, equality with the "
+                    "one-pass reference lexer spec_lex, first difference, termination - all sources); the Gallina model (django_lex, detailed, parse_template) is evaluated by vm_compute "
                     "inside Coq on the generated cases and compared with the observed tokens / errors of parse_template, DebugLexer and "
                     "_detailed_tag_parser; an independent one-pass quote-aware reference lexer and the partition / contents / lineno predicates "
                     "act as the direct property oracle.",
